@@ -1,7 +1,7 @@
 (* C11 - partial-channel inference ignores withheld channels; channel joins
    round-trip.  Statements only. *)
 From Coq Require Import List Bool Arith ZArith Reals.
-From ART Require Import Num NumR Vec Search Kernel Fusion Fusion_proofs Fusion_prep Fusion_skip.
+From ART Require Import Num NumR Vec Search Kernel Fusion Fusion_proofs Fusion_prep Fusion_prep_inv Fusion_skip.
 Import ListNotations.
 Open Scope nat_scope.
 
@@ -46,7 +46,19 @@ Theorem C11_restore_prepare_with_skips :
     restore_row rest ds skip (prepare_row prep ds skip raw) = map (fun i => nth i raw []) (supplied 0 (length ds) skip).
 Proof. exact @restore_prepare. Qed.
 Print Assumptions C11_skip_independent.
+(* the other direction: prepare_data applied to what restore_data returns (one block per supplied channel) *)
+Theorem C11_prepare_restore_with_skips :
+  forall (N : Num) (prep rest : nat -> list N -> list N) (ds skip : list nat) (row : list N),
+    fold_right plus 0%nat ds <= length row ->
+    (forall i b, In i (supplied 0 (length ds) skip) -> In b (split_row 0 ds skip row) -> prep i (rest i b) = b) ->
+    split_row 0 ds skip (prepare_row_supplied prep ds skip (restore_row rest ds skip row)) = split_row 0 ds skip row.
+Proof. exact @prepare_restore. Qed.
+Theorem C11_prepare_takes_restored_data_in_its_own_form :
+  forall (N : Num) (prep rest : nat -> list N -> list N) (ds skip : list nat) (row : list N),
+    prepare_row_any prep ds skip (restore_row rest ds skip row) = prepare_row_supplied prep ds skip (restore_row rest ds skip row).
+Proof. exact @prepare_any_of_restored. Qed.
 Print Assumptions C11_restore_prepare_with_skips.
+Print Assumptions C11_prepare_restore_with_skips.
 Print Assumptions C11_argmax_shift.
 Print Assumptions C11_activation_is_the_weighted_sum_of_the_remaining_channels.
 Print Assumptions C11_split_join.
